@@ -439,6 +439,7 @@ async fn send(w: &World, op: &str, bytes: Vec<u8>, marker: Option<&Name>) -> Out
         Ok(r) => r,
         Err(e) => return Outcome { effect: false, rcode: "NOPARSE".into(), reply: None, note: e.to_string() },
     };
+    let is_transfer = matches!(request.queries.query_type(), RecordType::AXFR | RecordType::IXFR);
     let (handle, mut rx) = BufDnsStreamHandle::new(src);
     let rh = ResponseHandle::new(src, handle, Protocol::Tcp);
     let fut = w.catalog.handle_request::<ResponseHandle, SimTime>(&request, rh);
@@ -456,7 +457,9 @@ async fn send(w: &World, op: &str, bytes: Vec<u8>, marker: Option<&Name>) -> Out
         Some(Err(_)) => ("REPLY-UNPARSEABLE".into(), 0),
         None => ("NOREPLY".into(), 0),
     };
-    let effect = if op == "update" { after != before } else { answers > 0 };
+    // "returns zone data": records in the answer to a request that (still) is a zone transfer; a mutation
+    // that turns the question into an ordinary query (IXFR 251 -> ANY 255) is outside the property
+    let effect = if op == "update" { after != before } else { is_transfer && answers > 0 };
     Outcome { effect, rcode, reply, note: String::new() }
 }
 
@@ -661,6 +664,10 @@ fn main() {
                     }
                     let mut b = genuine.bytes.clone();
                     b.insert(at, rng.random());
+                    // inserting a copy of the octet that starts a run reaching the end of the message
+                    // (the zero octets of TSIG error / other length) IS the genuine message plus one
+                    // trailing octet
+                    let reg = if b.starts_with(&genuine.bytes) { "appended".to_string() } else { reg };
                     let o = send(&w, op, b, genuine.marker.as_ref()).await;
                     emit(&mut trace, "ins", at, reg, &o);
                     if o.effect {
